@@ -450,6 +450,24 @@ class SymExec:
                         self.ob('OUT2', c, 'memcpy reads %s bytes from a literal of %d' % (n.c, len(lit['bytes']) + 1), False,
                                 'reads past the literal', 'memcpy-lit:%d' % c['loc'][0])
                     nul = (n.c == len(lit['bytes']) + 1) or (n.c >= 1 and n.c <= len(lit['bytes']) and lit['bytes'][n.c - 1] == 0)
+                # a local array that sprintf filled, copied with the terminator sprintf put behind the text:
+                # length = sprintf(A, ..); memcpy(p, A, length + 1)
+                a0_ = strip_casts(args[1])
+                if not nul and a0_.get('k') == 'ref' and self.u.ty(a0_.get('ty0', a0_['ty']))['c'] == 'array' and n.c == 1 and len(n.t) == 1 \
+                        and list(n.t.values()) == [1]:
+                    lname = next(iter(n.t))
+                    defs_ = [a_ for a_ in self.fn.nodes() if a_.get('k') == 'bin' and a_.get('op') in ASSIGN_OPS and
+                             strip_casts(a_['l']).get('k') == 'ref' and strip_casts(a_['l'])['n'] == lname]
+                    cfg_ = self.fn.cfg()
+                    mnode = cfg_.node_of_expr(c['id'])
+                    dnodes = {a_['id']: cfg_.node_of_expr(a_['id']) for a_ in defs_}
+                    if mnode is not None and all(v is not None for v in dnodes.values()):
+                        allids = {v.id for v in dnodes.values()}
+                        reaching = [a_ for a_ in defs_ if mnode.id in cfg_.reachable(dnodes[a_['id']].id, stop=allids - {dnodes[a_['id']].id})]
+                        if reaching and all(a_['op'] == '=' and strip_casts(a_['r']).get('k') == 'call' and
+                                            callee_name(strip_casts(a_['r'])) == 'sprintf' and strip_casts(a_['r'])['args'] and
+                                            strip_casts(strip_casts(a_['r'])['args'][0]).get('d') == a0_['d'] for a_ in reaching):
+                            nul = True
                 # source and length both handed in by the caller: whether the last byte copied is the terminator is the
                 # callers' business (checked at every call site by out23)
                 pidx = {p['d']: i for i, p in enumerate(self.fn.params)}
